@@ -213,6 +213,8 @@ bool FIXReader::read(f8String& to)	// read a complete FIX message
 	{
 		char bt;
 		size_t offs(_bg_sz);
+		// BodyLength has at most _max_bodylen_digits digits (no unsigned wrap); the first one is part of the preamble
+		const size_t max_offs(std::min<size_t>(_max_msg_len, _bg_sz + _max_bodylen_digits));
 		do	// get the last chrs of bodylength and ^A
 		{
 			if (sockRead(&bt, 1) != 1)
@@ -221,14 +223,14 @@ bool FIXReader::read(f8String& to)	// read a complete FIX message
 				throw IllegalMessage(msg_buf, FILE_LINE);
 			msg_buf[offs++] = bt;
 		}
-		while (bt != default_field_separator && offs < _max_msg_len);
+		while (bt != default_field_separator && offs < max_offs);
 		to.assign(msg_buf, offs);
 
 		char tag[MAX_MSGTYPE_FIELD_LEN], val[FIX8_MAX_FLD_LENGTH];
 		unsigned result;
 		if ((result = MessageBase::extract_element(to.data(), static_cast<unsigned>(to.size()), tag, val)))
 		{
-			if (*tag != '8')
+			if (tag[0] != '8' || tag[1])
 				throw IllegalMessage(to, FILE_LINE);
 
 			if (_session.get_ctx()._beginStr.compare(val))	// invalid FIX version
@@ -236,8 +238,12 @@ bool FIXReader::read(f8String& to)	// read a complete FIX message
 
 			if ((result = MessageBase::extract_element(to.data() + result, static_cast<unsigned>(to.size()) - result, tag, val)))
 			{
-				if (*tag != '9')
+				if (tag[0] != '9' || tag[1])
 					throw IllegalMessage(to, FILE_LINE);
+
+				for (const char *ptr(val); *ptr; ++ptr)	// BodyLength must be numeric
+					if (!isdigit(static_cast<unsigned char>(*ptr)))
+						throw IllegalMessage(to, FILE_LINE);
 
 				const unsigned mlen(fast_atoi<unsigned>(val));
 				if (mlen == 0 || mlen > _max_msg_len - _bg_sz - _chksum_sz) // invalid msglen
